@@ -105,7 +105,10 @@ def execStep (st : ExecDrvSt) (op : String) (a : KV) : ExecDrvSt × String :=
     -- (variant=bad with a path through a symlinked directory: the file the kernel would start is owned by a non-root
     --  user and world-writable, so the check refuses it and nothing runs)
     let viaLink := ((a.str "path" "").splitOn "current/..").length > 1
-    let stt : Stat := if viaLink && a.str "variant" "bad" == "bad" then { uid := 1000, gid := 1000, mode := 0o777 }
+    -- a BARE name (variant=cwdfile: a namesake of another owner sits in $PATH): os/exec would take the file from $PATH,
+    -- so that is the file the check is made on - it is refused and nothing runs
+    let bare := a.str "variant" "" == "cwdfile" && ((a.str "path" "").splitOn "/").length == 1
+    let stt : Stat := if (viaLink && a.str "variant" "bad" == "bad") || bare then { uid := 1000, gid := 1000, mode := 0o777 }
                           else { uid := 0, gid := 0, mode := 0o755 }
     let o := safeCmdExecution .resolved (.ok stt) (.exits 0 "7\n") 2000
     (exCount st o.ran, s!"run={exFmtRun o.res} good={exB01 o.ran} bad=0")
